@@ -307,6 +307,7 @@ func init() {
 			{Name: "large", QShards: 2, TShards: 8, Run: func(c *Ctx) { alignLarge(c, alignOpts{validity: true}, c08Gen) }},
 			{Name: "parallel", Race: true, Run: alignParallel},
 			firstCallUnit(firstAlign("C08")),
+			{Name: "largecalls", QShards: 2, TShards: 4, Run: func(c *Ctx) { alignLargeCalls(c, alignOpts{validity: true, local: true}, c08Gen) }},
 			{Name: "manycalls", QShards: 4, TShards: 6, Run: func(c *Ctx) { alignManyCalls(c, alignOpts{validity: true, local: true}, c08Gen) }},
 		},
 	})
@@ -327,6 +328,7 @@ func init() {
 			{Name: "tables", Run: c09Tables},
 			{Name: "reuse", TShards: 4, Run: func(c *Ctx) { alignReuse(c, alignOpts{validity: true, optimal: true}, 1) }},
 			{Name: "large", QShards: 2, TShards: 8, Run: func(c *Ctx) { alignLarge(c, alignOpts{validity: true, optimal: true}, c09Gen) }},
+			{Name: "largecalls", QShards: 2, TShards: 4, Run: func(c *Ctx) { alignLargeCalls(c, alignOpts{validity: true, optimal: true, local: true}, c09Gen) }},
 			{Name: "manycalls", QShards: 4, TShards: 6, Run: func(c *Ctx) { alignManyCalls(c, alignOpts{validity: true, optimal: true, local: true}, c09Gen) }},
 			firstCallUnit(firstAlign("C09")),
 		},
@@ -346,7 +348,12 @@ func init() {
 			{Name: "witnesses", Run: c10Witnesses},
 			{Name: "reuse", TShards: 4, Run: func(c *Ctx) { alignReuse(c, alignOpts{validity: true, optimal: true, knownC10: true}, 2) }},
 			{Name: "large", QShards: 2, TShards: 8, Run: func(c *Ctx) { alignLarge(c, alignOpts{validity: true, optimal: true, knownC10: true}, c10Gen) }},
-			{Name: "manycalls", QShards: 4, TShards: 6, Run: func(c *Ctx) { alignManyCalls(c, alignOpts{validity: true, optimal: true, knownC10: true, local: true}, c10Gen) }},
+			{Name: "largecalls", QShards: 2, TShards: 4, Run: func(c *Ctx) {
+				alignLargeCalls(c, alignOpts{validity: true, optimal: true, knownC10: true, local: true}, c10Gen)
+			}},
+			{Name: "manycalls", QShards: 4, TShards: 6, Run: func(c *Ctx) {
+				alignManyCalls(c, alignOpts{validity: true, optimal: true, knownC10: true, local: true}, c10Gen)
+			}},
 			firstCallUnit(firstAlign("C10")[4:]),
 		},
 	})
@@ -406,6 +413,10 @@ func c08Random(c *Ctx) {
 				a, b, m = longGapCase(r, pick(r, []float64{0, -3, -7}))
 				local = true
 				k.Count("long_gap_cases", 1)
+			}
+			if r.IntN(6) == 0 && (len(a) == 0 || len(b) == 0 || &a[0] != &b[0]) {
+				b, m = twoAlphabets(r, a, b, m)
+				k.Count("two_alphabet_cases", 1)
 			}
 			k.Input("a", a)
 			k.Input("b", b)
@@ -488,6 +499,10 @@ func c09Random(c *Ctx) {
 				local = true
 				k.Count("long_gap_cases", 1)
 			}
+			if r.IntN(6) == 0 {
+				b, m = twoAlphabets(r, a, b, m)
+				k.Count("two_alphabet_cases", 1)
+			}
 			k.Input("a", a)
 			k.Input("b", b)
 			k.Input("matrix", matrixDesc(m))
@@ -497,6 +512,54 @@ func c09Random(c *Ctx) {
 			}
 		})
 	}
+}
+
+// twoAlphabets turns a case over one alphabet into the same case with a and b
+// over DIFFERENT alphabets: every symbol of b is replaced by a twin (its other
+// case where that is free, otherwise an unused byte), and the matrix keeps only
+// the pairs an alignment of a with b can ask for — (x, twin(y)), (x, Gap),
+// (Gap, twin(y)), (Gap, Gap) — with the scores of the original pairs. A matrix
+// is a set of scored pairs; nothing says every symbol has a row, or that rows
+// and columns carry the same symbols (an upper-case reference against
+// lower-case reads). The optimum is that of the original case.
+func twoAlphabets(r *rand.Rand, a, b []byte, m align.SubstitutionMatrix) ([]byte, align.SubstitutionMatrix) {
+	used := map[byte]bool{align.Gap: true}
+	for key := range m {
+		used[key[0]], used[key[1]] = true, true
+	}
+	twin := map[byte]byte{}
+	for key := range m {
+		y := key[1]
+		if y == align.Gap {
+			continue
+		}
+		if _, ok := twin[y]; ok {
+			continue
+		}
+		t := y ^ 0x20
+		for used[t] {
+			t = byte(r.IntN(255))
+		}
+		used[t] = true
+		twin[y] = t
+	}
+	m2 := align.SubstitutionMatrix{}
+	for key, v := range m {
+		x, y := key[0], key[1]
+		switch {
+		case y == align.Gap:
+			m2[[2]byte{x, y}] = v
+		case x == align.Gap:
+			m2[[2]byte{x, twin[y]}] = v
+		default:
+			m2[[2]byte{x, twin[y]}] = v
+		}
+	}
+	b2 := make([]byte, len(b))
+	for i, y := range b {
+		b2[i] = twin[y]
+	}
+	return b2, m2
 }
 
 func c09Levenshtein(c *Ctx) {
@@ -714,6 +777,10 @@ func c10Random(c *Ctx) {
 				a, b, m = longGapCase(r, pick(r, []float64{-1, -3, -7}))
 				k.Count("long_gap_cases", 1)
 			}
+			if r.IntN(6) == 0 {
+				b, m = twoAlphabets(r, a, b, m)
+				k.Count("two_alphabet_cases", 1)
+			}
 			k.Input("a", a)
 			k.Input("b", b)
 			k.Input("matrix", matrixDesc(m))
@@ -842,12 +909,80 @@ func alignLarge(c *Ctx, o alignOpts, gen func(r *rand.Rand, mi int, alpha []byte
 	}
 }
 
+// alignLargeCalls: histories of LARGE calls in one process — tables of 2^20
+// cells and more, of changing shape (the next one smaller, wider, narrower,
+// the same size with another row length), Local and Global in turn. Scratch
+// memory that is kept between calls (a pooled table, a per-size-class cache) is
+// only reused above some size, and what the previous call left in it lies
+// elsewhere when the row length changes. Every call is checked like any other.
+func alignLargeCalls(c *Ctx, o alignOpts, gen func(r *rand.Rand, mi int, alpha []byte) (align.SubstitutionMatrix, bool)) {
+	histories := [][][2]int{
+		{{1100, 1000}, {1010, 1040}, {2000, 600}, {600, 2000}, {1024, 1024}, {1023, 1025}, {300, 300}, {1100, 1000}},
+		{{1500, 1500}, {1200, 1100}, {1100, 1200}, {3000, 400}, {1050, 1050}, {40, 30000}, {1049, 1051}},
+	}
+	if c.Thorough {
+		histories = append(histories, [][2]int{{4200, 4100}, {4100, 4100}, {4099, 4101}, {2100, 2100}, {8000, 2100}, {2048, 2048}, {2047, 2049}},
+			[][2]int{{1 << 20, 3}, {3, 1 << 20}, {1500, 700}, {700, 1500}, {1024, 1023}, {1023, 1024}})
+	}
+	for hi, hist := range histories {
+		for variant := 0; variant < 2; variant++ { // variant 0: Global and Local in every call; variant 1: Local in every other call only
+			c.Case(int64(2*hi+variant), func(k *K) {
+				r := k.Rand()
+				alpha := []byte("acgt")
+				k.Input("table_shapes", fmt.Sprint(hist))
+				for t, sh := range hist {
+					m, local := gen(r, 0, alpha)
+					a := randSeq(r, alpha, sh[0])
+					b := make([]byte, sh[1])
+					for j := range b {
+						b[j] = a[j*len(a)/len(b)]
+						if r.IntN(6) == 0 {
+							b[j] = alpha[r.IntN(len(alpha))]
+						}
+					}
+					oo := o
+					oo.local = local && o.local && (variant == 0 || t%2 == 1)
+					k.Input("call", t)
+					k.Input("len_a", sh[0])
+					k.Input("len_b", sh[1])
+					k.Input("local", oo.local)
+					k.Input("a_head", a[:min(len(a), 64)])
+					k.Input("matrix", matrixDesc(m))
+					alignCase(k, a, b, m, oo)
+					if k.Failed() {
+						return
+					}
+					k.Count("large_calls_in_one_process", 1)
+				}
+				k.Nontrivial([]byte(fmt.Sprint("largecalls", hist, variant)))
+			})
+		}
+	}
+}
+
 // alignAlphabet: the usual letters, the extreme byte values (0 first, so that
 // sequences begin with a NUL; 255 is the gap symbol), or a fresh draw from all
 // 255 byte values — over a long run of calls in one process every character is
 // then used at irregular intervals, with a different matrix each time.
 func alignAlphabet(r *rand.Rand) []byte {
-	switch r.IntN(6) {
+	switch r.IntN(7) {
+	case 6:
+		// letters that real sequences are made of, a base (or residue) together with its
+		// lower-case twin — soft-masked DNA — which a matrix is free to score differently
+		letters := pick(r, []string{"ACGT", "ACGT", "ACGTN", "ACGU", "ARNDCQEGHILKMFPSTWYVBZX*"})
+		b := letters[r.IntN(len(letters))]
+		out := []byte{b, b | 0x20}
+		for len(out) < 2+r.IntN(3) {
+			c := letters[r.IntN(len(letters))]
+			if r.IntN(2) == 0 {
+				c |= 0x20
+			}
+			if !bytes.Contains(out, []byte{c}) {
+				out = append(out, c)
+			}
+		}
+		r.Shuffle(len(out), func(i, j int) { out[i], out[j] = out[j], out[i] })
+		return out
 	case 0:
 		return []byte{0, 254, 'a', '\n'}[:2+r.IntN(3)]
 	case 1, 2:
